@@ -717,3 +717,28 @@ package kafka
 //@   option allocbound r.readerStack.remain
 //@   modifies *header, r.readerStack.remain, r.readerStack.reader.$rpos
 //@   ensures msacct(r)
+
+//@ func (messagesHeader).badMagic
+//@   trusted formats an error
+//@   ensures result != nil
+//@ func (messagesHeader).compression
+//@   trusted resolves the compression codec named by the attributes (no effect on the reader)
+//@ func (*messageSetReader).unwindStack
+//@   requires r.readerStack != nil
+//@   modifies r.readerStack
+//@   ensures r.readerStack != nil
+//@   loop 0 invariant r.readerStack != nil
+//@ func (*messageSetReader).markRead
+//@   requires r.readerStack != nil && r.readerStack.count != 0
+//@   modifies r.readerStack, r.readerStack.count
+//@   ensures r.readerStack != nil
+//@   ensures old(r.readerStack).count == old(r.readerStack.count) - 1
+
+// readHeader reads a header only when the current set is exhausted; the 49 bytes of a v2 batch header that follow the
+// length field are subtracted from lengthRemain, the bytes the batch announces for its records.
+//@ func (*messageSetReader).readHeader
+//@   requires msok(r)
+//@   modifies r.readerStack.remain, r.readerStack.header, r.readerStack.count, r.lengthRemain, r.readerStack.reader.$rpos
+//@   ensures msacct(r)
+//@   ensures old(r.readerStack.count) > 0 ==> err == nil && r.lengthRemain == old(r.lengthRemain) && r.readerStack.count == old(r.readerStack.count) && r.readerStack.remain == old(r.readerStack.remain)
+//@   ensures err == nil && old(r.readerStack.count) <= 0 && r.readerStack.header.magic == 2 ==> r.readerStack.count == int(r.readerStack.header.v2.count) && r.lengthRemain == int(r.readerStack.header.length) - 49
